@@ -433,7 +433,12 @@ func loadHVtmx(hheaRaw, htmxRaw []byte, numGlyphs int) (*tables.Hhea, tables.Hmt
 		return nil, tables.Hmtx{}, err
 	}
 
-	hmtx, _, err := tables.ParseHmtx(htmxRaw, int(hhea.NumOfLongMetrics), numGlyphs-int(hhea.NumOfLongMetrics))
+	// hhea may announce more long metrics than the font has glyphs
+	leftSideBearingsCount := numGlyphs - int(hhea.NumOfLongMetrics)
+	if leftSideBearingsCount < 0 {
+		leftSideBearingsCount = 0
+	}
+	hmtx, _, err := tables.ParseHmtx(htmxRaw, int(hhea.NumOfLongMetrics), leftSideBearingsCount)
 	if err != nil {
 		return nil, tables.Hmtx{}, err
 	}
